@@ -411,7 +411,7 @@ fn watchdog() {
             let cur = CUR.load(std::sync::atomic::Ordering::Relaxed);
             if cur != last.0 {
                 last = (cur, std::time::Instant::now());
-            } else if cur >= 0 && last.1.elapsed() > std::time::Duration::from_secs(30) {
+            } else if cur >= 0 && last.1.elapsed() > std::time::Duration::from_secs(std::env::var("VERIF_WATCHDOG_S").ok().and_then(|s| s.parse().ok()).unwrap_or(30)) {
                 unsafe { libc::_exit(43) };
             }
         }
